@@ -24,7 +24,9 @@ def stream(d, off, n):
     if s is None or len(s) < off + n:
         size = max(262144, off + n + 65536)
         salt = 17 if d == "c2s" else 101
-        s = bytes((((x + salt) * 2654435761) >> 11) & 0xFF for x in range(size))
+        # pseudo-random bytes with a run of 61 zero bytes every 305: many writes and fragments begin with, end in or
+        # consist of zero bytes (the TLS 1.3 inner plaintext is content | type | zeros)
+        s = bytes(0 if ((x + salt) // 61) % 5 == 0 else ((((x + salt) * 2654435761) >> 11) & 0xFF) for x in range(size))
         _STREAM[d] = s
     return s[off:off + n]
 
